@@ -1,4 +1,5 @@
-"""C09 — configuration text is read back faithfully (mptcore/parse/*.c, node_append.c, meta/meta_new.c)."""
+"""C09 — configuration text is read back faithfully (mptcore/parse/*.c, node_append.c, meta/meta_new.c, meta_geninfo.c,
+array/meta_buffer.c)."""
 import glob, os
 import vcheck
 from vcheck import DiffProperty, build_harness, build_model, run_cases
@@ -12,6 +13,22 @@ NAME_SPECIAL = list(b"_-+*/!?$&@~^|;:,<>()\"'`\\")
 VAL_PLAIN = list(b"abcdefXYZ0123456789.,:/_-+*=<>{}[]()%|!")
 VAL_HARD = [32, 32, 9, 34, 39, 35, 92, 10, 0x80, 0xff, 0x7f, 1]
 ACCEPTS = [None, None, None, b"ESNWBFCesnwbfc", b"ns", b"nsNS", b"nswNSW", b"Esc", b"", b"fcFC"]
+NAME_BLANKS = [32, 32, 32, 9, 11, 12, 13]
+
+# One switch per proposed patch of docs/C09_<topic>.diff.  While a patch is not in the tree under test its switch keeps
+# the cases that need it out of the generator and selects the model variant of the code as it is.
+# PATCHED_OPTION_NAME_BLANK: docs/C09_option_name_blank.diff (mptcore/parse/parse_option.c).  In the enclosed and separated
+#   styles the white space (and newlines, comments) behind the FIRST character of an option name is dropped: "a b = 1" is
+#   read as option "ab".  False: the model runs mpt_parse_option as it is (allow.araw = false in coq/C08/ParseModel.v) and
+#   no generated option name of the styles x / s / y has white space as its second character; True: the model runs the
+#   patched variant (--raw for ml/c08_driver.ml and ml/c09_driver.ml) and such names are generated.
+PATCHED_OPTION_NAME_BLANK = True
+# PATCHED_GENINFO_CLONE: docs/C09_geninfo_clone.diff (mptcore/misc/geninfo_clone.c).  The clone of a basic metatype (texts up
+#   to 249 bytes) takes the terminator for text: its vector view grows by one zero byte per clone, and the clone of a 249 byte
+#   value is a buffer metatype that no longer answers the string conversion.  The model (coq/C08/MetaModel.v) is the code AS
+#   PATCHED; False: no generated value-store case clones a basic metatype (clones of buffer metatypes are generated).
+PATCHED_GENINFO_CLONE = True
+# both patches are committed in /repo (a51aad0, 01479c1): constants
 
 
 def chunked(bs):
@@ -117,7 +134,7 @@ class C09(DiffProperty):
         ided = ["c%d %s" % (i, c) for i, c in enumerate(cases)]
         for f in glob.glob(os.path.join(workdir, "model%s_*.out" % tagsuffix)):
             os.unlink(f)
-        M, e2 = run_cases(mx, ided, workdir, "model" + tagsuffix)
+        M, e2 = run_cases(mx, ided, workdir, "model" + tagsuffix, args=("--raw",) if PATCHED_OPTION_NAME_BLANK else ())
         xs = []
         for f in glob.glob(os.path.join(workdir, "model%s_*.out" % tagsuffix)):
             for line in open(f, errors="replace"):
@@ -130,11 +147,39 @@ class C09(DiffProperty):
             res.append(self.compare(c, I.get("I", {}).get(k), M.get("M", {}).get(k), M.get("S", {}).get(k)))
         return res, e1 + e2
 
+    def corpus(self):
+        """a corpus line `@OPTION_NAME_BLANK <case>` is used only when the named PATCHED_ switches are on"""
+        out = []
+        for line in DiffProperty.corpus(self):
+            if line.startswith("@"):
+                need, line = line[1:].split(None, 1)
+                if not all(globals().get("PATCHED_" + n, False) for n in need.split(",")):
+                    continue
+            out.append(line)
+        return out
+
     def split(self, case):
         t = case.split()
+        if t[0] == "m":
+            return t[:2], [[o] for o in t[2:]]
         return t[:2], [[t[2]], [t[3]]]
 
+    def classify_meta(self, case):
+        t = case.split()
+        n = len(unchunk(t[1])) if t[1] != "-" else 0
+        cl = {"value-store", "store:" + ("basic" if n <= 249 else "buffer")}
+        if 248 <= n <= 251:
+            cl.add("store-length-248..251")
+        if n >= 65535:
+            cl.add("store-length>=65535")
+        for o in ("clone", "iter", "news", "newi", "newg", "newb"):
+            if o in t[2:]:
+                cl.add("store-op:" + o)
+        return cl
+
     def classify(self, case):
+        if case.startswith("m "):
+            return self.classify_meta(case)
         st, acc, items, decos = case.split()
         cl = {"style:" + st}
         if acc != "N":
@@ -167,7 +212,13 @@ class C09(DiffProperty):
                         cl.add("value-with-newline")
                 if len(t[1]) > 255:
                     cl.add("name>255")
+                if st != "p" and any(c in (9, 11, 12, 13, 32) for c in t[1][1:-1]):
+                    cl.add("name-inner-blank:" + st + t[0])
+                if st != "p" and any(c in b"[]%=" for c in t[1]):
+                    cl.add("name-with-delimiter:" + st + t[0])
         walk(its, 0)
+        if st == "x" and any(t[0] == "s" for t in its) and any(len(r.split(":")) > 7 and r.split(":")[7] != "-" for r in decos.split(";")):
+            cl.add("section-name-ended-by-comment")
         if decos != "~":
             cl.add("decorated")
             if "|" in decos or any(r.split(":")[1] for r in decos.split(";")):
@@ -175,6 +226,15 @@ class C09(DiffProperty):
         return cl
 
     def shrink_candidates(self, case):
+        if case.startswith("m "):
+            t = case.split()
+            for k in range(3, len(t)):
+                yield " ".join(t[:k] + t[k + 1:])
+            v = unchunk(t[1]) if t[1] != "-" else []
+            for nv in (v[:len(v) // 2], v[1:], [0x76] * len(v)):
+                if nv != v:
+                    yield " ".join([t[0], chunked(nv) or "-"] + t[2:])
+            return
         st, acc, items, decos = case.split()
         its = parse_items(items)
         mk = lambda a, i, d: " ".join([st, a, items_tok(i), d])
@@ -210,7 +270,7 @@ class C09(DiffProperty):
                 break
 
     # ---- generator
-    def gen_name(self, rng, st, acc, level):
+    def gen_name(self, rng, st, acc, level, role="o"):
         r = rng.random()
         n = rng.choice([1, 1, 2, 3, 5, 8])
         if acc in (None, b"ESNWBFCesnwbfc"):
@@ -230,12 +290,39 @@ class C09(DiffProperty):
             nm = [rng.choice(NAME_ALNUM * 2 + NAME_DIG) for _ in range(n)]
         else:
             nm = [rng.choice(NAME_ALNUM)] + [rng.choice(NAME_ALNUM + NAME_DIG) for _ in range(n - 1)]
+        # the delimiter and assign characters where the other styles read them back (inside option names, anywhere in
+        # section names)
+        if st != "p" and acc in (None, b"ESNWBFCesnwbfc", b"ns", b"nsNS", b"nswNSW") and rng.random() < 0.15:
+            nm[rng.randrange(0, len(nm))] = rng.choice(list(b"[]%{}=" if role == "s" else b"[]%{}"))
         # characters no name can be written with are replaced most of the time
         if rng.random() < 0.97:
-            bad = {10, 35, 46, 61, 0} | ({123, 125} if st == "p" else {37} if st == "x" else {91, 93})
+            bad = {10, 35, 46, 0}
+            if st == "p":
+                bad |= {61, 123, 125}
+            elif role == "o":
+                bad |= {61}
+            elif st == "s":
+                bad |= {93}
             if st != "p":
                 bad |= {9, 11, 12, 13, 32}
             nm = [0x6b if c in bad else c for c in nm]
+            if st != "p" and role == "o" and nm[0] == (37 if st == "x" else 91):
+                nm[0] = 0x6b
+            # white space inside the names of the other styles, where the style can carry it: option names (not behind the
+            # first character before docs/C09_option_name_blank.diff) and section names of the separated style
+            if st != "p" and acc in (None, b"ESNWBFCesnwbfc", b"nswNSW") and (role == "o" or st == "s") and rng.random() < 0.3:
+                first = 1 if (role == "s" or PATCHED_OPTION_NAME_BLANK) else 2
+                for _ in range(rng.choice([1, 1, 2])):
+                    if len(nm) > first + 1:
+                        nm[rng.randrange(first, len(nm) - 1)] = rng.choice(NAME_BLANKS)
+        return self.opt_name(st, nm) if role == "o" else nm
+
+    @staticmethod
+    def opt_name(st, nm):
+        """docs/C09_option_name_blank.diff not committed: no option name of the styles x / s / y has white space behind its
+        first character"""
+        if not PATCHED_OPTION_NAME_BLANK and st != "p" and len(nm) > 1 and nm[1] in (9, 10, 11, 12, 13, 32):
+            return [nm[0], 0x6b] + nm[2:]
         return nm
 
     def gen_value(self, rng):
@@ -256,12 +343,13 @@ class C09(DiffProperty):
     def gen_items(self, rng, st, acc, depth, fan, names):
         out = []
         for _ in range(rng.randrange(0, fan + 1)):
-            nm = rng.choice(names) if names and rng.random() < 0.25 else self.gen_name(rng, st, acc, depth)
+            sec = depth > 0 and rng.random() < 0.4
+            nm = rng.choice(names) if names and rng.random() < 0.25 else self.gen_name(rng, st, acc, depth, "s" if sec else "o")
             names.append(nm)
-            if depth > 0 and rng.random() < 0.4:
+            if sec:
                 out.append(("s", nm, self.gen_items(rng, st, acc, depth - 1, fan, names)))
             else:
-                out.append(("o", nm, self.gen_value(rng)))
+                out.append(("o", self.opt_name(st, nm), self.gen_value(rng)))
         return out
 
     def gen_flat(self, rng, st, acc):
@@ -269,7 +357,7 @@ class C09(DiffProperty):
         opts = [("o", self.gen_name(rng, st, acc, 0), self.gen_value(rng)) for _ in range(rng.randrange(0, 4))]
         secs = []
         for _ in range(rng.randrange(0, 5)):
-            nm = rng.choice(names) if names and rng.random() < 0.25 else self.gen_name(rng, st, acc, 0)
+            nm = rng.choice(names) if names and rng.random() < 0.25 else self.gen_name(rng, st, acc, 0, "s")
             names.append(nm)
             secs.append(("s", nm, [("o", self.gen_name(rng, st, acc, 1), self.gen_value(rng)) for _ in range(rng.randrange(0, 5))]))
         return opts + secs
@@ -289,8 +377,40 @@ class C09(DiffProperty):
                     tc=junk(rng.choice([0, 4, 12])) if r() < 0.15 else None,
                     nl=r() < 0.2)
 
-    def generate(self, rng, tier):
+    def gen_meta(self, rng, tier):
+        """the value store behind a node: mpt_meta_new and every view of the two metatype kinds"""
         cases = []
+        views = ["kind", "str", "vec", "iter", "self", "buf", "ref"]
+        lens = [0, 1, 2, 20, 21, 100, 247, 248, 249, 250, 251, 252, 255, 256, 257, 1000, 65534, 65535, 65536]
+
+        def value(n):
+            if n > 300 or rng.random() < 0.3:
+                return [rng.choice([0x76, 0x20, 0xff, 0x01])] * n
+            return [rng.randrange(1, 256) for _ in range(n)]
+
+        def can_clone(n):
+            return PATCHED_GENINFO_CLONE or n > 249
+        for n in lens:
+            for new in ("newv", "news", "newg", "newb"):
+                ops = [new] + views + (["clone"] + views + ["clone", "vec", "str"] if can_clone(n) or new == "newb" else [])
+                cases.append(" ".join(["m", chunked(value(n)) or "-"] + ops))
+        cases.append("m 6162 newi kind str newv str newi vec")
+        for _ in range(400 if tier == "quick" else 6000):
+            n = rng.choice(lens + [rng.randrange(0, 300)] * 6 + [rng.randrange(240, 260)] * 4)
+            ops = [rng.choice(["newv", "newv", "news", "newg", "newb"])]
+            basic = ops[0] == "newg" or (ops[0] != "newb" and n <= 249)
+            for _ in range(rng.randrange(1, 12)):
+                o = rng.choice(views + views + ["clone", "clone", "clone", "newv", "news", "newi", "newg", "newb"])
+                if o == "clone" and basic and not PATCHED_GENINFO_CLONE:
+                    o = "vec"
+                if o.startswith("new"):
+                    basic = o == "newg" or (o in ("newv", "news") and n <= 249)
+                ops.append(o)
+            cases.append(" ".join(["m", chunked(value(n)) or "-"] + ops))
+        return cases
+
+    def generate(self, rng, tier):
+        cases = self.gen_meta(rng, tier)
         n = self.quick_n if tier == "quick" else self.thorough_n
         # value lengths across the representation limits, plain and quoted, in the three styles
         lens = [248, 249, 250, 251, 254, 255, 256, 257] + ([65534, 65535, 65536, 65537] if tier == "thorough" else [65535, 65536])
@@ -323,47 +443,82 @@ class C09(DiffProperty):
             cases.append(" ".join([st, cstr(acc), items_tok(its), decos]))
         return cases
 
-    rule = ("a case = style (prefix '*' default format / enclosed \"%x% = #\" / separated \"[ ] = #\" / enclosed with distinct "
-            "delimiters \"[x] = #\", option lists only) x name-flag string x tree x "
-            "decoration list; the text is produced by the extracted Gallina printer (print style deco tree) and handed to the C parser; "
+    rule = ("two families.  (1) a case = style (prefix '*' default format / enclosed \"%x% = #\" / separated \"[ ] = #\" / enclosed with "
+            "distinct delimiters \"[x] = #\", option lists only) x name-flag string x tree x decoration list; the text is produced "
+            "by the extracted Gallina printer (print style deco tree) and handed to the C parser; "
             "trees: depth <= 5, fan-out <= 6, duplicate names (25%), empty sections, empty values, names over letters/digits/special "
-            "characters/blanks/high bytes as the flags permit, values plain, with inner blanks, with quotes, backslashes, comment "
+            "characters/blanks/high bytes as the flags permit; in the enclosed / separated styles names with white space inside "
+            "(option names, section names of the separated style: 30% where the flags permit, never behind the first character of "
+            "an option name while PATCHED_OPTION_NAME_BLANK is off) and with the delimiter / assign characters where the code reads "
+            "them back (15%); values plain, with inner blanks, with quotes, backslashes, comment "
             "characters, newlines, edge blanks, high bytes; value lengths 248..257 plain and quoted and 65535, 65536 (thorough: "
-            "65534..65537) in all three styles; names of 255..257 and 65534, 65535 bytes; decorations: blank lines, indentation with "
+            "65534..65537) in all styles; names of 255..257 and 65534, 65535 bytes; decorations: blank lines, indentation with "
             "all six white space characters, comment lines and trailing comments with arbitrary bytes (the printer removes newlines), "
-            "blanks around delimiters, quoting choice, opening brace on the next line; 3% of the names keep characters that cannot be "
-            "written and 10% of the enclosed/separated trees are nested deeper than the style can express: for those the "
-            "specification makes no claim (r* d*); a case is non-trivial always; distinct = distinct case text")
-    modelled = ("as C08 plus the value path of mptcore/meta/meta_new.c (basic metatype below 250 bytes, buffer metatype above; bytes "
-                "only) and parse/node_append.c (child after a section start, sibling otherwise); the printer and the well-formedness "
-                "conditions are Gallina definitions (coq/C08/PrintModel.v)")
+            "blanks around delimiters, quoting choice, opening brace on the next line, section name of the enclosed style ended by "
+            "white space or by a comment; 3% of the names keep characters that cannot be written and 10% of the enclosed/separated "
+            "trees are nested deeper than the style can carry: for those the specification makes no claim (r* d*).  "
+            "(2) the value store behind a node: m <text> <operations>, texts of 0..300 bytes (dense at 240..260) and 1000, "
+            "65534..65536 bytes, created from a vector of char (what the parser hands over), a string pointer, an int (refused), by mpt_meta_geninfo (refused above 249 bytes) or by mpt_meta_buffer over an array without terminator, "
+            "histories of up to 12 conversions (type list, string, vector, iterator, metatype, buffer), addref and clone (clones of "
+            "the basic metatype only with PATCHED_GENINFO_CLONE).  A case is non-trivial always; distinct = distinct case text")
+    modelled = ("as C08 (every parser function of mptcore/parse, both variants of mpt_parse_option: as it is / with "
+                "docs/C09_option_name_blank.diff, selected by allow.araw) plus parse/node_append.c (child after a section start, "
+                "sibling otherwise) and the value store: meta/meta_new.c, meta/meta_geninfo.c, misc/geninfo*.c, array/meta_buffer.c "
+                "as kind (basic up to 249 bytes / buffer) and text, with the conversions each kind answers, addref = 0 and clone "
+                "(coq/C08/MetaModel.v; the clone of the basic metatype AS PATCHED by docs/C09_geninfo_clone.diff); the printer and "
+                "the well-formedness conditions are Gallina definitions (coq/C08/PrintModel.v).  Not modelled, compared with nothing: "
+                "allocation failure paths; mpt_meta_arguments and the entry converter of meta_buffer.c (not used by the parser, "
+                "driven by C19); the relative-position entry points of node/node_insert.c (mpt_node_add / mpt_node_insert, driven "
+                "by C14; mpt_node_append uses mpt_gnode_insert / mpt_gnode_add with position 0 only)")
     trusted = ["harness/c09_roundtrip.c reads names with mpt_node_ident, values through the metatype's own conversion (vector of "
-               "char, terminating zero removed) and checks parent/prev links directly",
+               "char, terminating zero removed; the string and iterator views, where answered, are compared with it: !str / !iter) "
+               "and checks parent/prev links directly",
                "the text the C parser receives is the one the model printed: length and FNV hash are compared (token t)",
-               "an empty value and no value are the same observation (both dumped as n)"]
+               "an empty value and no value are the same observation (both dumped as n)",
+               "value store family: the harness asks every view through the metatype's vtable and prints text, lengths and return "
+               "classes; which views a metatype answers is taken from the model by the specification (the interface allows both)"]
     level_text = ("proof: Coq theorems C09_print_parse_roundtrip and C09_decoration_irrelevant state for the prefix style '*' (default "
                   "format) that for EVERY well-formed tree (any depth and fan-out, duplicate names, empty sections, empty values, names "
                   "with inner blanks, values of any length below 2^31 bytes, plain or quoted), EVERY decoration list (blank lines, "
                   "indentation, comment lines, blanks around delimiters, trailing comments, quoting choice, brace placement) and "
                   "EVERY name-flag set, parsing the printed text succeeds and yields exactly the tree (quotes removed, escaped quotes "
-                  "kept), hence the result does not depend on the decoration; C09_print_parse_roundtrip_{enc,sep,encd}_partial and "
-                  "C09_decoration_irrelevant_{enc,sep}_partial state the same for the enclosed, separated and options-only enclosed "
-                  "style for every tree those styles can express (options first, one level of sections, names without white space); "
-                  "by induction over the tree on top of symbolic-execution lemmas for the transcribed parser.  The model is tied to "
-                  "the code on every run: the extracted printer produces the text, the C parser reads it under "
-                  "ASan/UBSan/LeakSanitizer, the resulting tree is compared with the source tree and with the model's parse")
-    level_note = ("trusted: Coq kernel; hand transcription of the parser (validated by the correspondence run, not verified); "
-                  "extraction and OCaml driver; harness.  PARTIAL for the enclosed / separated styles only in that their theorems "
-                  "assume what the styles can express (wf_items: options first, sections one level deep holding options only — the "
-                  "code itself ends an open section at the next section start) and names without embedded white space (the first "
-                  "name character is followed by mpt_parse_nextvis in mpt_parse_option, which drops a blank there); trees outside "
-                  "these conditions are generated too and compared against the model only.  Well-formedness (wf_items) excludes "
-                  "names with newline, delimiter, comment character, path separator '.', blanks at the ends, empty names, names "
-                  "above 65534 bytes, and values that end in a backslash AND cannot be written plain.  An empty value and no value "
-                  "are the same observation.  Metatype storage (inline below 250 bytes, buffer above) is modelled for its bytes "
-                  "only.  The theorems hold for /repo main with the fix: commits listed in docs/notes_C09.md.  All 7 theorems are "
-                  "closed under the global context (no axioms).")
-    technique = "Coq proof (print/parse round trip by induction over the tree) + differential correspondence check"
+                  "kept), hence the result does not depend on the decoration; C09_print_parse_roundtrip_{enc,sep,encd} and "
+                  "C09_decoration_irrelevant_{enc,sep} state the same for the enclosed, separated and options-only enclosed style "
+                  "for every tree those styles can carry (options first, then sections holding options), with names that hold white "
+                  "space, the assign character and the section delimiters wherever the code reads them back; "
+                  "C09_{enc,sep}_flat_only, C09_encd_options_only and C09_{enc,sep}_inexpressible state for EVERY byte string as "
+                  "input (not only printed texts) that mpt_parse_node builds nothing but such flat forests in these styles, so a "
+                  "tree with nesting below a section or an option behind a section is the parse of no text at all "
+                  "(C09_nested_sections_flattened, C09_option_after_section_joins, C09_enc_section_name_blank_differs: what the "
+                  "printed text of such a tree is read as, witnesses); C09_value_views_faithful, C09_value_reads_text and "
+                  "C09_clone_keeps_text state for every text and every history of conversions and clones that each view a node "
+                  "value answers shows exactly the text stored; all theorems hold for both variants of mpt_parse_option (allow.araw), "
+                  "C09_option_name_blank_refuted / _witness show the defect of the variant as it is.  By induction over the tree "
+                  "/ the input on top of symbolic-execution lemmas for the transcribed parser.  The model is tied to the code on "
+                  "every run: the extracted printer produces the text, the C parser reads it under ASan/UBSan/LeakSanitizer, the "
+                  "resulting tree is compared with the source tree and with the model's parse; the value store is driven through "
+                  "every view of both metatype kinds")
+    level_note = ("trusted: Coq kernel; hand transcription of the parser and of the value store (validated by the correspondence run, "
+                  "not verified); extraction and OCaml driver; harness.  The round trip theorems assume well-formedness (wf_items): "
+                  "names non-empty, accepted by the flags, at most 65534 bytes, without blanks at the ends and without the "
+                  "characters that end a name in its style and role (newline, comment character, path separator '.' everywhere; "
+                  "braces and '=' in the prefix style; '=' and a leading section start character in option names of the other "
+                  "styles; white space in section names of the enclosed family — the first white space ends the name; ']' in "
+                  "section names of the separated style), values of bytes 1..255 that can be written plain or do not end in a "
+                  "backslash; enclosed / separated style: the flat shape the flat_only theorems prove to be all these styles carry "
+                  "(those theorems assume the name flag 'empty' is off for options: with it a nameless data line adopts the next "
+                  "element as a child, mpt_node_append treats a data-only element like a section start).  "
+                  "OPEN in /repo, switches off in props/c09.py: (1) PATCHED_OPTION_NAME_BLANK, docs/C09_option_name_blank.diff: "
+                  "mpt_parse_option drops the white space (newlines, comments) behind the first character of an option name in "
+                  "the enclosed and separated styles ('a b = 1' is stored as 'ab'); the model runs the variant as it is "
+                  "(araw = false), the theorems hold there for names whose second character is no white space, the specification "
+                  "claims all names, such names are generated only after the switch is on; (2) PATCHED_GENINFO_CLONE, "
+                  "docs/C09_geninfo_clone.diff: the clone of a basic metatype takes its terminator for text (one zero byte more per "
+                  "clone, a cloned 249 byte value no longer answers the string conversion); the model is the code as patched, "
+                  "clones of basic metatypes are generated only after the switch is on.  An empty value and no value are the same "
+                  "observation.  The theorems hold for /repo main with the fix: commits listed in docs/notes_C09.md.  All 20 "
+                  "theorems are closed under the global context (no axioms).")
+    technique = "Coq proof (print/parse round trip by induction over the tree; shape invariant over all inputs) + differential correspondence check"
     assumptions = ["allocation succeeds", "value lengths stay below 2^32 (width of parser_context.valid after the fix) and INT_MAX"]
 
 
